@@ -60,7 +60,7 @@ func tokenOfLexeme(lt *lexTables, lex string) string {
 func opsOfTrace(tr []string) (ops []string, subs []string) {
 	for _, t := range tr {
 		switch {
-		case t == "adv", t == "v", t == "B", t == "H", t == "loop{", t == "}", t == "local+", t == "scope+", t == "scope-", t == "init":
+		case t == "adv", t == "semi", t == "v", t == "B", t == "H", t == "loop{", t == "}", t == "local+", t == "scope+", t == "scope-", t == "init":
 		case strings.HasPrefix(t, "sub:"):
 			subs = append(subs, strings.TrimPrefix(t, "sub:"))
 		default:
@@ -332,7 +332,7 @@ func ruleShortCircuit(c *Ctx, r *Report, rule string) {
 			var parts []string
 			for _, t := range o.Trace {
 				switch {
-				case t == "adv", t == "v", t == "B", t == "H":
+				case t == "adv", t == "semi", t == "v", t == "B", t == "H":
 				case strings.HasPrefix(t, "sub:E("):
 					parts = append(parts, "E")
 				default:
